@@ -361,9 +361,11 @@ impl<'a> Iterator for CommentIter<'a> {
                 self.src = &self.src[comment_line.len()..];
                 self.src = if self.src.starts_with("\r\n") {
                     &self.src[2..]
-                } else {
-                    // \n
+                } else if self.src.starts_with('\n') {
                     &self.src[1..]
+                } else {
+                    // The comment ends the input without a newline
+                    self.src
                 };
                 Some(comment_line)
             } else if self.src.starts_with("/*") {
